@@ -716,11 +716,8 @@ func runCase(c Case) vh.Record {
 		if c.Kind == 1 && (op.O == "deflen" || op.O == "export" || op.O == "concat" || op.O == "concatv" || (op.O == "setlen" && op.Inv)) {
 			continue
 		}
-		if op.O == "nullproto" {
-			if c.Kind != 0 {
-				continue
-			}
-			nullProto = true
+		if op.O == "nullproto" && (c.Kind != 0 || nullProto) {
+			continue
 		}
 		if nullProto && op.O == "proto" {
 			continue
@@ -786,6 +783,9 @@ func runCase(c Case) vh.Record {
 			}
 		}
 		r, o, d := normal.exec(op, c.Kind)
+		if op.O == "nullproto" && r == "RU" {
+			nullProto = true // from now on Array.prototype definitions no longer concern this array
+		}
 		opsN = append(opsN, o)
 		obsN = append(obsN, fmt.Sprintf("Ob (%s) %s", r, d))
 		if len(human) < 40 {
